@@ -137,6 +137,12 @@ def tlc(cx, module, cfg, consts, **kw):
     return r
 
 
+def crashed_in_code(out):
+    if not re.search(r"^(panic: |fatal error: )", out, re.M):
+        return False
+    return bool(re.search(r"shadowsocks-go/(clientgroups|probe)[./]", out))
+
+
 def replay_all(cx, what, jobs, timeout=900):
     """jobs: list of (driver consts, behaviours).  Runs them in parallel processes and folds the results into the verdict."""
     inputs = []
@@ -147,7 +153,13 @@ def replay_all(cx, what, jobs, timeout=900):
     counters = {}
     if not inputs:
         return counters
-    for res, out, rc in common.run_parallel(cx.binary, "TestReplay", inputs, timeout):
+    for inp, (res, out, rc) in zip(inputs, common.run_parallel(cx.binary, "TestReplay", inputs, timeout)):
+        if res is None and rc != 0 and crashed_in_code(out):
+            # the process died inside the code under test: a result in itself
+            m = re.search(r"^(panic: .*|fatal error: .*)$", out, re.M)
+            cx.v.violation("groups/panic", "%s: the process died in clientgroups/probe code: %s" % (what, m.group(1) if m else "?"),
+                           {"consts": inp["consts"], "behaviours": inp["behaviours"][:50], "stdout": out[-1500:]})
+            continue
         res = common.absorb(cx.v, res, out, rc, what)
         cx.nrep += res["behaviours"]
         cx.steps += res["steps"]
@@ -171,7 +183,7 @@ def design_configs(cx):
 
 
 def design_job(cx, dcfg):
-    r = tlc(cx, "MCClientGroup", "MCClientGroup.cfg", dcfg, workers=8, timeout=2400 if cx.big else 600, edges=False, heap="12g" if cx.big else "6g", jvm=JVM_BIG)
+    r = tlc(cx, "MCClientGroup", "MCClientGroup.cfg", dcfg, workers=8, timeout=3600 if cx.big else 2400, edges=False, heap="12g" if cx.big else "6g", jvm=JVM_BIG)
     if r.violation:
         raise vlib.Broken("the design violates %s in the scaled configuration %s (scaled rings cannot be replayed): fix the model\n%s"
                           % (r.violation, info(r, dcfg)["constants"], r.out[-1500:]))
@@ -188,9 +200,9 @@ def graph_configs(cx):
           ("round-robin+random n=3", model_consts(k, g3, ["round-robin", "random"], Callers='{"p1","p2","p3"}', MaxSel=5 if not big else 7),
            [driver_consts(g3, 1, ms, ms, 3, "tcp"), driver_consts(g3, 1, ms, ms, 3, "udp")])]
     if big:
-        gs += [("probing/tcp n=3, two workers", model_consts(k, g3, PROBING, T=2, Alpha=tla_alpha(3, [1, 2]), Conc=2, MaxRounds=2),
+        gs += [("probing/tcp n=3, two workers", model_consts(k, g3, PROBING, T=2, Alpha=tla_alpha(3, [1, 2]), Conc=2, MaxRounds=3),
                 [driver_consts(g3, 2, ms, 10 * 10**9, 2, "tcp")]),
-               ("probing/tcp n=2 T=3, one worker, 7 ns unit", model_consts(k, g2, PROBING, T=3, UnitNs=7, Alpha=tla_alpha(2, [1, 2, 3]), Conc=1, MaxRounds=2),
+               ("probing/tcp n=2 T=3, one worker, 7 ns unit", model_consts(k, g2, PROBING, T=3, UnitNs=7, Alpha=tla_alpha(2, [1, 2, 3]), Conc=1, MaxRounds=3),
                 [driver_consts(g2, 3, 7, 1000, 1, "tcp")]),
                ("round-robin+random, a member listed twice", model_consts(k, ["a", "b", "a"], ["round-robin", "random"], Callers='{"p1","p2"}', MaxSel=7),
                 [driver_consts(["a", "b", "a"], 1, ms, ms, 3, "tcp")])]
@@ -200,7 +212,7 @@ def graph_configs(cx):
 def graph_job(cx, item):
     label, mc, dcs = item
     mc = dict(mc, EMIT="ACTION_CONSTRAINT Emit")
-    r = tlc(cx, "MCClientGroup", "MCClientGroup.cfg", mc, workers=4, timeout=1800 if cx.big else 600, edges=True, heap="6g",
+    r = tlc(cx, "MCClientGroup", "MCClientGroup.cfg", mc, workers=4, timeout=3000, edges=True, heap="6g",
             jvm=JVM_BIG if cx.big else JVM_SMALL)
     if r.violation:
         raise vlib.Broken("replay graph %s violates %s:\n%s" % (label, r.violation, r.out[-1500:]))
@@ -215,10 +227,15 @@ def graph_job(cx, item):
 # ---- (3) the design on random long histories with the code's ring sizes (TLC -simulate, no replay)
 def sim_job(cx):
     k = cx.k
-    nsim = 4 if not cx.big else 5
+    nsim = 3 if not cx.big else 5
     sim = model_consts(k, NAMES[:nsim], PROBING, T=4, UnitNs=model_unit(10**6, k["LatRing"]), Alpha=tla_alpha(nsim, [1, 2, 3, 4]), Conc=nsim)
-    s = tlc(cx, "MCClientGroup", "MCClientGroup.cfg", sim, workers=2 if not cx.big else 6, timeout=900, edges=False,
-            simulate="num=%d" % (3 if not cx.big else 60), depth=(k["AvailRing"] + 40) * (2 * nsim + 2), seed=cx.seed, jvm=JVM_BIG if cx.big else JVM_SMALL)
+    s = tlc(cx, "MCClientGroup", "MCClientGroup.cfg", sim, workers=2 if not cx.big else 6, timeout=3000, edges=False,
+            simulate="num=%d" % (2 if not cx.big else 60), depth=(k["AvailRing"] + 24) * (2 * nsim + 2), seed=cx.seed, jvm=JVM_BIG if cx.big else JVM_SMALL)
+    m = re.search(r"The number of states generated: (\d+)", s.out)
+    if m:
+        s.generated = s.distinct = int(m.group(1))
+        with cx.lock:
+            cx.tot["generated"] += s.generated
     if s.violation:
         raise vlib.Broken("the design violates %s on a simulated history with the real ring sizes:\n%s" % (s.violation, s.out[-1500:]))
     return info(s, sim)
@@ -263,7 +280,7 @@ def script_plans(cx):
 
 def script_job(cx, plan):
     i, mc, dc, kinds, lens, prof = plan
-    r = tlc(cx, "MCClientGroup", "MCClientGroupScript.cfg", mc, workers=2, timeout=900, edges=True, heap="3g", jvm=JVM_SMALL)
+    r = tlc(cx, "MCClientGroup", "MCClientGroupScript.cfg", mc, workers=2, timeout=3000, edges=True, heap="3g", jvm=JVM_SMALL)
     if r.violation:
         raise vlib.Broken("the design violates %s on scripted history %d (%s):\n%s" % (r.violation, i, kinds, r.out[-1500:]))
     behs = chain_behaviours(r)
@@ -283,7 +300,7 @@ def rr_job(cx):
     groups = [["b", "a", "c"], ["a", "b"], ["c", "a", "e", "b", "d"], ["a", "b", "a"], ["a"]]
     if not cx.big:
         groups = groups[:3]
-    rrp = {"traces": 4 if not cx.big else 12, "callers": 8, "calls": 4 if not cx.big else 6, "bulk": 20000 if not cx.big else 200000}
+    rrp = {"traces": 4 if not cx.big else 12, "callers": 8, "calls": 4 if not cx.big else 6, "bulk": 20000 if not cx.big else 200000, "bulkMs": 300 if not cx.big else 2000}
     base = os.path.join(cx.work, "rr")
     res, out, rc = vlib.run_driver(cx.binary, "TestRecordRR",
                                    {"seed": cx.seed, "params": {"rr": rrp, "out": base, "groups": groups, "universe": UNIVERSE}}, 900)
@@ -293,7 +310,7 @@ def rr_job(cx):
         path = "%s-%d.ndjson" % (base, gi)
         ids = [json.loads(l)["t"] for l in open(path) if '"reset"' in l]
         c = dict(Universe=tla_str_set(UNIVERSE), Group=tla_str_seq(groups[gi]), Callers=tla_str_set(callers), TraceFile=path)
-        r = tlc(cx, "MCTraceClientGroup", "MCTraceClientGroup.cfg", c, workers=2, timeout=900, edges=False, keep_out=True, dump_trace=False, heap="3g", jvm=JVM_SMALL)
+        r = tlc(cx, "MCTraceClientGroup", "MCTraceClientGroup.cfg", c, workers=2, timeout=3000, edges=False, keep_out=True, dump_trace=False, heap="3g", jvm=JVM_SMALL)
         if r.violation:
             raise vlib.Broken("trace validation of group %s violates %s" % (groups[gi], r.violation))
         return gi, ids, set(re.findall(r'^"ACCEPT (.*)"$', r.out, re.M)), path, r
@@ -332,11 +349,26 @@ def run(tier, seed, replay):
         phases[label] = round(time.time() - t0, 1)
         vlib.log("[c19] %s at %.1fs" % (label, phases[label]))
 
+    try:
+        return run_all(cx, v, mark, phases)
+    except vlib.Broken as e:
+        # violations already observed on the real code are reported even if the machinery failed later
+        if not v.violations and not v.known:
+            raise
+        v.notes.append("the run stopped early: %s" % str(e)[:500])
+        for fld in ("states", "transitions", "traces_validated_against_impl"):
+            v.coverage.setdefault(fld, {"states": cx.tot["distinct"], "transitions": cx.tot["generated"], "traces_validated_against_impl": cx.nrep}[fld])
+        return v.finish()
+
+
+def run_all(cx, v, mark, phases):
     # every TLC job goes to one pool (longest first); the replays run as their inputs become available
     pool = ThreadPoolExecutor(max_workers=5 if not cx.big else 6)
     try:
-        f_design = [pool.submit(design_job, cx, d) for d in design_configs(cx)]
-        f_sim = pool.submit(sim_job, cx)
+        # development aid for mutation experiments: VERIF_C19_SKIP=design skips the two code-independent TLC phases
+        skip = os.environ.get("VERIF_C19_SKIP", "").split(",")
+        f_design = [pool.submit(design_job, cx, d) for d in design_configs(cx)] if "design" not in skip else []
+        f_sim = pool.submit(sim_job, cx) if "design" not in skip else None
         f_graphs = [pool.submit(graph_job, cx, g) for g in graph_configs(cx)]
         f_rr = pool.submit(rr_job, cx)
         f_scripts = [pool.submit(script_job, cx, p) for p in script_plans(cx)]
@@ -383,7 +415,7 @@ def run(tier, seed, replay):
             raise vlib.Broken("no round-robin trace was recorded")
         mark("round-robin traces validated")
 
-        v.coverage["simulate_real_rings"] = f_sim.result()
+        v.coverage["simulate_real_rings"] = f_sim.result() if f_sim else None
         v.coverage["design_exhaustive"] = [f.result() for f in f_design]
         mark("design checked")
     finally:
@@ -444,6 +476,15 @@ def run_replay(v, work, binary, k, replay, seed):
             v.violation(doc["key"], doc.get("text", "recorded round-robin trace is not explained by consecutive tickets"), rp)
         v.coverage.update(states=r.distinct, transitions=r.generated, traces_validated_against_impl=1)
         v.sample(rp["trace"][:20])
+        return v.finish()
+    if "behaviours" in rp:
+        res, out, rc = vlib.run_driver(binary, "TestReplay", {"behaviours": rp["behaviours"], "seed": seed, "consts": rp["consts"]}, 600)
+        if res is None and rc != 0 and crashed_in_code(out):
+            v.violation(doc["key"], doc.get("text", "the process died in clientgroups/probe code"), rp)
+        else:
+            common.absorb(v, res, out, rc, "replay")
+        v.coverage.update(states=1, transitions=sum(len(b["steps"]) for b in rp["behaviours"]), traces_validated_against_impl=len(rp["behaviours"]))
+        v.sample([st["a"] for st in rp["behaviours"][0]["steps"][:40]])
         return v.finish()
     beh = {"init": rp["init"], "steps": [{"a": a} for a in rp["acts"]]}
     res, out, rc = vlib.run_driver(binary, "TestReplay", {"behaviours": [beh], "seed": seed, "consts": rp["consts"]}, 300)
